@@ -326,7 +326,7 @@ impl Acc {
             *self.counters.entry(k).or_insert(0) += v;
         }
         for s in o.samples {
-            if self.samples.len() < self.sample_cap.max(6) * 4 {
+            if self.samples.len() < 400 {
                 self.samples.push(s);
             }
         }
@@ -554,7 +554,10 @@ pub fn finish(
     cov.insert("evaluations".into(), json!(acc.evals));
     cov.insert("distinct_nontrivial".into(), json!(acc.nontrivial));
     cov.insert("rule".into(), json!(rep.rule));
-    cov.insert("samples".into(), Value::Array(acc.samples.iter().take(12).cloned().collect()));
+    // samples: spread over all stages (the list is in stage order)
+    let ns = acc.samples.len();
+    let step = (ns / 16).max(1);
+    cov.insert("samples".into(), Value::Array(acc.samples.iter().step_by(step).take(20).cloned().collect()));
     cov.insert("exhaustive".into(), json!(rep.exhaustive));
     cov.insert("accepted".into(), json!(acc.accepted));
     cov.insert("rejected".into(), json!(acc.rejected));
